@@ -697,6 +697,7 @@ def run(ctx):
               "call(s) and %d loader call(s); see evidence notes" % (st["fid"], pst["fid"]))
     ctx.notes["wall_loader_replay_s"] = round(time.time() - t0, 1)
 
+    sounding_history(ctx, report)
     # ---- the real pool
     if ctx.tier == "thorough":
         t0 = time.time()
@@ -743,6 +744,66 @@ def real_pool(ctx, plcases, report):
                                              repetition=rep, detail=diff[1])))
     ctx.notes["real_pool_calls"] = n
     ctx.notes["real_pool_configs"] = [dict(L=c["L"], kwclass=_kwclass(c), cls=c["cls"]) for c in picked]
+
+
+def sounding_history(ctx, report):
+    """ParallelLoad!Sound is a function of the file AS IT IS NOW: a trajectory that grows (or is rewritten shorter) under
+    the same name between two calls -- a simulation continued between rounds of an adaptive-sampling driver -- is
+    sounded and bulk-loaded with its current length; both calls are made from this process"""
+    import mdtraj as md
+    from enspara.util import load as L
+    d = tempfile.mkdtemp(prefix="ev_c15hist_")
+    n = 0
+    try:
+        top = md.Topology()
+        ch = top.add_chain()
+        res = top.add_residue("ALA", ch)
+        for a in range(N_ATOMS):
+            top.add_atom("C%d" % a, md.element.carbon, res)
+        topf = os.path.join(d, "top.pdb")
+        for fmt in [f for f in ("xtc", "h5") if f in FORMATS]:
+            for n1, n2 in ((12, 17), (12, 5)):
+                f = os.path.join(d, "run_%d_%d.%s" % (n1, n2, fmt))
+                other = os.path.join(d, "other.%s" % fmt)
+                try:
+                    md.Trajectory(np.random.RandomState(3).rand(4, N_ATOMS, 3).astype(np.float32), top).save(other)
+                    md.Trajectory(np.zeros((1, N_ATOMS, 3), dtype=np.float32), top).save(topf)
+                except Exception:
+                    continue
+                for rnd, nf in enumerate((n1, n2)):
+                    xyz = (np.arange(nf * N_ATOMS * 3).reshape(nf, N_ATOMS, 3) * 0.01 + rnd).astype(np.float32)
+                    md.Trajectory(xyz, top).save(f)
+                    kw = {} if fmt == "h5" else {"top": topf}
+                    ref = md.load(f, **kw).xyz
+                    refo = md.load(other, **kw).xyz
+                    n += 1
+                    ctx.case(("sounding-history", fmt, n1, n2, rnd))
+                    ctx.traces += 1
+                    for stride in (1, 2, 5):
+                        try:
+                            got = L.sound_trajectory(f, stride=stride)
+                        except Exception as ex:
+                            got = "raised %s" % type(ex).__name__
+                        if got != -(-nf // stride):
+                            report("sound_trajectory/%s/history/length" % ("first-sounding" if rnd == 0 else "after-rewrite"), 1,
+                                   {"kind": "replay", "call": "sound_trajectory(%s file, stride=%d)" % (fmt, stride),
+                                    "history": "file written with %d frames, sounded and loaded, rewritten with %d frames" % (n1, n2),
+                                    "round": rnd + 1, "got": got, "expected": -(-nf // stride)})
+                    try:
+                        lens, xyz_got = L.load_as_concatenated([f, other], processes=2, **kw)
+                        ok = [int(x) for x in lens] == [nf, 4] and np.array_equal(np.asarray(xyz_got), np.concatenate([ref, refo]))
+                        detail = {"lengths": [int(x) for x in lens]}
+                    except Exception as ex:
+                        ok, detail = False, {"raised": "%s: %s" % (type(ex).__name__, str(ex)[:160])}
+                    if not ok:
+                        report("load_as_concatenated/%s/history/%s" % ("first-load" if rnd == 0 else "after-rewrite",
+                                                                      "raises" if "raised" in detail else "values"), 1,
+                               dict({"kind": "replay", "call": "load_as_concatenated([%s file, other], processes=2)" % fmt,
+                                     "history": "file written with %d frames, sounded and loaded, rewritten with %d frames" % (n1, n2),
+                                     "round": rnd + 1, "expected_lengths": [nf, 4]}, **detail))
+    finally:
+        shutil.rmtree(d, ignore_errors=True)
+    ctx.notes["sounding_history_rounds"] = n
 
 
 def replay(ctx, path):
